@@ -479,3 +479,123 @@ func retryRejected() []string {
 	}
 	return why
 }
+
+type OvEmb struct {
+	Name string `db:"name"`
+}
+
+type ovOuter struct {
+	ID int64 `db:"id"`
+	*OvEmb
+}
+
+// iterSameDest (l4; C06): the rows of one Iterator are read into the same destination
+// variable, and the caller replaces the struct behind an embedded pointer between rows (keeps
+// the earlier one): each row lands in what the destination designates at the time of the
+// call (C06n: Iterator.Get remembers the scan targets of the previous call when the same
+// destination is passed again).
+func iterSameDest() []string {
+	var why []string
+	s, err := sqlair.Prepare("SELECT &ovOuter.* FROM t", ovOuter{})
+	if err != nil {
+		return []string{"prepare: " + err.Error()}
+	}
+	sqldb, st := fakedrv.Open()
+	defer sqldb.Close()
+	db := sqlair.NewDB(sqldb)
+	st.SetScript(fakedrv.Script{Columns: []string{"_sqlair_0", "_sqlair_1"},
+		Rows: [][]driver.Value{{int64(1), "ann"}, {int64(2), "bob"}, {int64(3), "cy"}}})
+	it := db.Query(context.Background(), s).Iter()
+	defer it.Close()
+	var d ovOuter
+	var kept []*OvEmb
+	var ids []int64
+	for it.Next() {
+		d.OvEmb = &OvEmb{}
+		if err := it.Get(&d); err != nil {
+			return []string{"Get into the same destination with a fresh embedded struct: " + err.Error()}
+		}
+		kept = append(kept, d.OvEmb)
+		ids = append(ids, d.ID)
+	}
+	got := ""
+	for i, e := range kept {
+		got += fmt.Sprint(ids[i], ":", e.Name, " ")
+	}
+	if got != "1:ann 2:bob 3:cy " {
+		why = append(why, fmt.Sprintf("rows read into one destination variable whose embedded struct pointer the caller replaces between rows: the structs designated at each call hold [%s], the driver served [1:ann 2:bob 3:cy ]", got))
+	}
+	return why
+}
+
+// cancelThenDrain (l4; C14): after a few rows the caller cancels the context and goes on
+// calling Next at once (no waiting for database/sql to notice).  Next may still deliver rows;
+// but if it returns false before all rows were delivered, Close reports an error - a
+// cancellation never looks like the normal end of the result (C14n: Next returns false as
+// soon as the context is done, Close then closes a result set database/sql still thinks fine).
+func cancelThenDrain() []string {
+	var why []string
+	s, err := sqlair.Prepare("SELECT &ovRow.* FROM t", ovRow{})
+	if err != nil {
+		return []string{"prepare: " + err.Error()}
+	}
+	const total = 40
+	var rows [][]driver.Value
+	for i := 0; i < total; i++ {
+		rows = append(rows, []driver.Value{int64(i), int64(i * 10)})
+	}
+	for trial := 0; trial < 30 && len(why) == 0; trial++ {
+		for _, path := range []string{"db", "tx"} {
+			sqldb, st := fakedrv.Open()
+			db := sqlair.NewDB(sqldb)
+			st.SetScript(fakedrv.Script{Columns: []string{"_sqlair_0", "_sqlair_1"}, Rows: rows})
+			ctx, cancel := context.WithCancel(context.Background())
+			var q *sqlair.Query
+			var tx *sqlair.TX
+			if path == "db" {
+				q = db.Query(ctx, s)
+			} else {
+				tx, err = db.Begin(context.Background(), nil)
+				if err != nil {
+					cancel()
+					sqldb.Close()
+					continue
+				}
+				q = tx.Query(ctx, s)
+			}
+			it := q.Iter()
+			delivered := 0
+			for delivered < 1+trial%5 && it.Next() {
+				var x ovRow
+				if it.Get(&x) != nil {
+					break
+				}
+				delivered++
+			}
+			cancel()
+			for it.Next() {
+				var x ovRow
+				if it.Get(&x) != nil {
+					break
+				}
+				delivered++
+			}
+			c1 := it.Close()
+			c2 := it.Close()
+			if delivered < total && c1 == nil {
+				why = append(why, fmt.Sprintf("Iterator through %s over %d rows, context cancelled after %d: Next returned false after %d rows and Close returned nil - the cancellation looks like the normal end of the result", path, total, 1+trial%5, delivered))
+			}
+			if fmt.Sprint(c1) != fmt.Sprint(c2) {
+				why = append(why, fmt.Sprintf("Close returned %v, then %v", c1, c2))
+			}
+			if tx != nil {
+				tx.Rollback()
+			}
+			sqldb.Close()
+		}
+	}
+	if len(why) > 3 {
+		why = why[:3]
+	}
+	return why
+}
